@@ -340,3 +340,12 @@ for _pid, _keys in _layouts.BY_PROPERTY.items():
     SPECS[_pid]["level_text"] += ". Layout obligations: the LIVE construct declarations (dumped on every run, compiled structs through .defersubcon) agree field by field (offset, width, signedness, endianness, enum tables, array counts) with independent literal layout tables"
 SPECS["C20"]["level"] = "proof"
 SPECS["C01"]["level_text"] += "; the sample window expressions of SampleHeaderConstruct (size = 2*(end-start), offset = 140 + 2*start) are proved equal to the statement's window by z3 over the dumped expression trees"
+
+SPECS["C14"]["contracts"] = ["smpl_extract.akai.file_entry:FileEntriesAdapter._parse"]
+SPECS["C14"]["level"] = "proof"
+SPECS["C14"]["level_text"] = ("proved (AKAI): the file-table scan keeps the alignment invariant 'at the head of iteration j the table cursor is at 24*j' for ANY content "
+    "of the earlier entries - after a successful entry parse (cursor + 24) and after a failed one (explicit re-seek to entry start + 24), is_table_end "
+    "restores the cursor - so entry j is parsed from bytes [24j, 24j+24) whatever entry i != j holds; the loop terminates; the live FileEntryConstruct is 24 bytes with "
+    "the name/type/size/start fields where the independent table puts them. The construct parsers the loop drives are replaced by ASSUMED effect contracts. " + SPECS["C14"]["level_text"])
+SPECS["C14"]["level_note"] = "trusted: pyvc engine, z3, assumed effect contracts of Struct.parse_stream / Int16ul.parse_stream / sizeof / Lazy; the Roland half and the lazy per-file error swallowing are bounded only"
+SPECS["C13"]["contracts"].append("smpl_extract.akai.file_entry:FileEntriesAdapter._parse")
